@@ -113,6 +113,7 @@ class DocGen:
         (DATE, "2001-366"), (DATE, "2001-01-01T23:59:60.5Z"),
         (STR, '"line one\n   line two"'), (STR, '"dash-\n     continued"'),
         (STR, '"dash-\r\n     continued"'), (STR, '"dash-\f  continued"'),
+        (STR, '"first line\nEND\nlast line"'), (STR, "'a\r\n  End \r\nb'"),
         (NAME, "abc-\r\n   def"), (NAME, "abc-\n   def"),
         (STR, "'tab\there'"), (STR, '"caf\u00e9 \u20ac"'),
         (STR, '"  padded  "'), (NAME, "A:B"), (NAME, "a+b"), (NAME, "N/A"),
@@ -441,6 +442,7 @@ class Layout:
         if self.comments and r.random() < 0.08:
             c = r.choice(["/* c */", "/* = */", "/* END */", "/**/",
                           "/* # not a line comment */",
+                          "/* old:\nEND\n*/" if newline_ok else "/* END */",
                           "/* a\n b */" if newline_ok else "/* a b */"])
             s = s + c + " "
         return s
